@@ -83,17 +83,22 @@ def r1(ctx):
         # identify index symbol
         idx = None
         m = None
+        # the mapped quantity is judged on its value: a local that carries
+        # one of the two gap quantities (`h = self.core.adjacent_coolant_gap_
+        # htc(i)`, read by both maps) is expanded flow-sensitively at the call
+        arg0 = {id(c): U.value_at(fi.node, c.args[0], c.lineno)
+                for c in calls}
         for c in calls:
-            a0 = c.args[0]
+            a0 = arg0[id(c)]
             for cand in ast.walk(a0):
                 if isinstance(cand, ast.Call) and call_name(cand) and \
                         call_name(cand).endswith('adjacent_coolant_gap_htc'):
                     idx = src(cand.args[0])
         hs = hpat % idx if '%s' in hpat else hpat
         ts = tpat % idx if '%s' in tpat else tpat
-        plain = [c for c in calls if _strip(c.args[0]) == hs]
-        prod = [c for c in calls if _is_product(c.args[0], hs, ts)]
-        bare = [c for c in calls if _strip(c.args[0]) == ts]
+        plain = [c for c in calls if _strip(arg0[id(c)]) == hs]
+        prod = [c for c in calls if _is_product(arg0[id(c)], hs, ts)]
+        bare = [c for c in calls if _strip(arg0[id(c)]) == ts]
         ctx.require(len(plain) == 1 and len(prod) == 1 and not bare,
                     'C02.R1', fi, (bare or calls)[0],
                     'the gap temperature must be mapped h-weighted: '
@@ -464,11 +469,26 @@ def r5(ctx):
                                'self.n_duct': 3, 'i': 1})
     v3 = U.eval_test(br.test, {'adiabatic': False, 'i + 1': 3,
                                'self.n_duct': 3, 'i': 2})
-    ctx.require(v1 is True and v2 is False and v3 is False, 'C02.R5', fi,
+    # the arm that holds the adiabatic formulas is the one taken by the
+    # outermost duct under the adiabatic option -- decided on the value of
+    # the test over the finite domain (option) x (1..4 ducts) x (duct index),
+    # where it must be `adiabatic and outermost` or exactly its negation
+    # (arms swapped), never on the polarity it is written in
+    pts = [U.eval_test(br.test, {'adiabatic': a_, 'i + 1': i_ + 1,
+                                 'self.n_duct': n_, 'i': i_}) ==
+           (a_ and i_ == n_ - 1)
+           for a_ in (True, False) for n_ in range(1, 5) for i_ in range(n_)]
+    neg = [U.eval_test(br.test, {'adiabatic': a_, 'i + 1': i_ + 1,
+                                 'self.n_duct': n_, 'i': i_}) ==
+           (not (a_ and i_ == n_ - 1))
+           for a_ in (True, False) for n_ in range(1, 5) for i_ in range(n_)]
+    swapped = all(neg) and v1 is False and v2 is True and v3 is True
+    ctx.require((v1 is True and v2 is False and v3 is False and all(pts))
+                or swapped, 'C02.R5', fi,
                 br.test, 'the adiabatic formulas apply exactly to the '
                 'outermost duct under the adiabatic option',
                 key=fi.full + ' | adiabatic condition')
-    bad = _tainted_loads(br.body, taint)
+    bad = _tainted_loads(br.orelse if swapped else br.body, taint)
     ctx.require(not bad, 'C02.R5', fi, bad[0] if bad else br,
                 'the adiabatic branch reads %s, which is derived from the '
                 'gap temperature / htc arguments: heat would cross an '
